@@ -402,9 +402,9 @@ def load_known():
     return json.load(open(p)).get("findings", [])
 
 
-def write_evidence(prop, tier, seed, coverage, wall_s, violations, assumptions):
+def write_evidence(prop, tier, seed, coverage, wall_s, violations, assumptions, level="proof"):
     os.makedirs(os.path.join(VERIF, "evidence"), exist_ok=True)
-    ev = {"property_id": prop, "tier": tier, "seed": seed, "level": "proof", "coverage": coverage,
+    ev = {"property_id": prop, "tier": tier, "seed": seed, "level": level, "coverage": coverage,
           "assumptions": assumptions, "wall_s": round(wall_s, 2), "violations": violations}
     with open(os.path.join(VERIF, "evidence", f"{prop}.json"), "w") as f:
         json.dump(ev, f, indent=1)
